@@ -262,6 +262,9 @@ class Recorder:
         self.record_states = record_states
         self.system: Any = None
         self._depth = 0
+        self.probe = False          # ask the registry questions after every action (see run_probe)
+        self._probing = False
+        self.probes = 0
 
     def oid(self, o: Any) -> int:
         """Object identity = ordinal of its first System.addObject (0: never added)."""
@@ -274,6 +277,45 @@ class Recorder:
             self.ids[id(o)] = len(self.ids) + 1
             self.keep.append(o)
         return self.ids[id(o)]
+
+    def run_probe(self) -> None:
+        """History dimension "interleaved lookups": after every registry action, ask everything the lookup operators of
+        Registry.tla answer - qualified names, expandName / resolveName of every simple and `Class.member` name in every
+        scope, Class.find, Class.mro, find_object of every registered name - and throw the answers away.  In the model the
+        lookups are pure operators over the current state (they are not actions, nothing remembers that they were asked), so
+        a build with these questions asked at every step must end like a build without them: whatever a lookup remembered
+        from an intermediate state shows in the final answers the checks judge."""
+        from pydoctor import model
+        system = self.system
+        if self._probing or system is None:
+            return
+        self._probing = True
+        try:
+            objs = list(system.allobjects.values())
+            names = sorted({o.name for o in objs if " " not in o.name and "." not in o.name})[:14]
+            dotted = sorted({f"{o.name}.{n}" for o in objs if isinstance(o, model.Class) and " " not in o.name for n in list(o.contents)[:4]})[:14]
+            for o in objs:
+                try:
+                    o.fullName()
+                    if isinstance(o, (model.Module, model.Class)):
+                        for q in names + dotted:
+                            o.expandName(q)
+                            o.resolveName(q)
+                            self.probes += 1
+                    if isinstance(o, model.Class):
+                        o.mro()
+                        for q in names:
+                            o.find(q)
+                except Exception:
+                    pass            # a lookup that raises in an intermediate state is not this dimension's business
+            for k in list(system.allobjects)[:60]:
+                try:
+                    system.find_object(k)
+                    system.find_object(k + ".nosuchmember")
+                except Exception:
+                    pass
+        finally:
+            self._probing = False
 
     def project(self) -> Dict[str, Any]:
         system = self.system
@@ -311,6 +353,8 @@ class Recorder:
                 rec._depth -= 1
                 rec.events.append({"a": "AddObject", "o": rec.oid(obj), "m": 0, "n": "", "nm": nm0, "exc": exc or "",
                                    "s": rec.project() if rec.record_states else None})
+                if rec.probe and not exc:
+                    rec.run_probe()
 
         def rep(self, new_parent, new_name):
             rec.system = self.system
@@ -323,6 +367,8 @@ class Recorder:
             finally:
                 rec.events.append({"a": "Reparent", "o": rec.oid(self), "m": rec.oid(new_parent), "n": new_name, "nm": "",
                                    "exc": exc or "", "s": rec.project() if rec.record_states else None})
+                if rec.probe and not exc:
+                    rec.run_probe()
 
         def pm(self, mod):
             rec.system = self
@@ -345,7 +391,7 @@ class Recorder:
 
 
 def real_build(p: Dict[str, Any], sched: Sequence[int], scratch: Path, record_states: bool = False,
-               via_rename: bool = False) -> Dict[str, Any]:
+               via_rename: bool = False, probe: bool = False) -> Dict[str, Any]:
     """
     Build the project with the real pydoctor, the schedule imposed the way a rename would impose it: the
     `sorted` used by System.addPackage is shadowed in pydoctor.model's namespace by a function that orders
@@ -373,6 +419,7 @@ def real_build(p: Dict[str, Any], sched: Sequence[int], scratch: Path, record_st
         return sorted(items, **kw)
 
     rec = Recorder(record_states)
+    rec.probe = probe
     undo = rec.install()
     msgs: List[Tuple[str, str]] = []
     crashed = ""
